@@ -17,9 +17,21 @@ pub fn calc_chunk_size(
         ChunkSize::Min(x) => {
             ResolvedChunkSize::Min(min_chunk_size(input_len, max_num_threads, x.into()))
         }
-        ChunkSize::Exact(x) => ResolvedChunkSize::Exact(x.into()),
+        ChunkSize::Exact(x) => ResolvedChunkSize::Exact(exact_chunk_size(input_len, x.into())),
     }
     .validate()
+}
+
+/// A chunk which is larger than the input is equivalent to a chunk which is as large as the input.
+///
+/// Bounding the chunk size by the input length prevents the shared position counter of the concurrent iterator,
+/// which is advanced by the chunk size at every pull, from overflowing when the requested size is astronomically
+/// large; an overflow would make the iterator hand out the same positions more than once.
+fn exact_chunk_size(input_len: Option<usize>, chunk_size: usize) -> usize {
+    match input_len {
+        None => chunk_size,
+        Some(len) => chunk_size.min(len.max(1)),
+    }
 }
 
 const INITIAL_CHUNK_SIZE: usize = 1 << 20;
@@ -74,7 +86,7 @@ fn min_chunk_size(input_len: Option<usize>, max_num_threads: usize, chunk_size: 
         None => chunk_size,
         Some(0) => 1,
         Some(len) => {
-            let one_round_len = max_num_threads * chunk_size;
+            let one_round_len = max_num_threads.saturating_mul(chunk_size);
             match one_round_len.cmp(&len) {
                 Ordering::Greater => div_ceil(len, max_num_threads),
                 _ => chunk_size,
